@@ -149,6 +149,7 @@ structure Node (A : UtxoAlg) where
   utxo      : A.U                -- what cache ∪ database answer (C03's abstraction map)
   lastFlush : Option Chain       -- `lastFlushHash` (none = zero hash)
   orphans   : List Chain         -- orphan pool (in memory only)
+  hdrs      : List Chain := []   -- header-only index nodes (`ProcessBlockHeader`; never written to disk)
   img       : Image A
   log       : List (Commit A)
 
@@ -316,6 +317,8 @@ def deliver (cfg : Cfg) (nd : Node A) (b : Blk) (p : Chain) : Node A × Res :=
 
 inductive Op where
   | deliver (b : Blk) (p : Chain)
+  /-- `ProcessBlockHeader`: adds a header-only node; makes no commit. -/
+  | header (b : Blk) (p : Chain)
   | flushReq
   | flushIfNeeded
   /-- `FlushUtxoCache(FlushPeriodic)` less than the periodic interval after the last
@@ -325,6 +328,12 @@ deriving DecidableEq, Repr
 
 def step (cfg : Cfg) (nd : Node A) : Op → Node A × Option Res
   | .deliver b p => let (nd, r) := deliver cfg nd b p; (nd, some r)
+  | .header b p =>
+    if (b :: p) ∈ keys nd.index then
+      (nd, if (statusOf nd.index (b :: p)).knownInvalid then some .rej else none)
+    else if (p ∈ keys nd.index ∧ ¬ (statusOf nd.index p).knownInvalid) ∨ p ∈ nd.hdrs then
+      ({ nd with hdrs := (b :: p) :: nd.hdrs }, none)
+    else (nd, some .rej)
   | .flushReq => (flushRequired nd, none)
   | .flushIfNeeded => (flushIfNeeded cfg nd nd.tip, none)
   | .flushPeriodic => (if cfg.cacheAlways then flushRequired nd else emit nd .nop, none)
